@@ -213,8 +213,8 @@ def st_multimodel(files):
 def plan(tier, seed):
     specs = c03.plan(tier, seed)
     specs.append({"kind": "saenger", "files": []})
-    n = 6 if tier == "quick" else 16
-    ex = 8 if tier == "quick" else 120
+    n = 8 if tier == "quick" else 16
+    ex = 20 if tier == "quick" else 120
     specs += [{"kind": "multimodel", "files": corpus.SMALL[:8], "examples": ex, "seed": seed * 1000 + 200 + k} for k in range(n)]
     return specs
 
